@@ -173,3 +173,39 @@ def declareField (ty : TypeName) (fmt : Format) (allowed : Option Range) (allowE
     else pure (mk (.constant c))
 
 end Cutplace
+
+namespace Cutplace
+
+/-- the guard pipeline as the engine's `Column.pre`: decided without the hook (`inl`) or hook called
+with the (possibly blank-stripped) cell (`inr`) -/
+def Field.pre (f : Field) (v : Str) : Sum Bool Str :=
+  match firstDisallowed f.allowed v with
+  | some _ => .inl false
+  | none =>
+    let s := if f.fixed then strip v else v
+    if !f.allowEmpty && s.isEmpty then .inl false
+    else if !f.lengthOk v then .inl false
+    else if s.isEmpty then .inl true else .inr s
+
+/-- `validated` factors through `pre` for every hook -/
+theorem Field.validatedWith_eq_pre (f : Field) (hook : Str → Out (Option Value)) (ev : Value) (v : Str) :
+    f.validatedWith hook ev v =
+      (match f.pre v with
+       | .inl true => .ok (some ev)
+       | .inl false => .ok none
+       | .inr s => hook s) := by
+  unfold Field.validatedWith Field.pre
+  cases firstDisallowed f.allowed v with
+  | some _ => rfl
+  | none =>
+    simp only []
+    generalize (if f.fixed = true then strip v else v) = s
+    by_cases h1 : (!f.allowEmpty && s.isEmpty) = true
+    · simp [h1]
+    · by_cases h2 : (!f.lengthOk v) = true
+      · simp [h1, h2]
+      · by_cases h3 : s.isEmpty = true
+        · simp [h2, h3]; split <;> rfl
+        · simp [h2, h3]
+
+end Cutplace
